@@ -151,6 +151,34 @@ func (e *env) c01() {
 		if i < 3 {
 			e.r.Sample(map[string]any{"fen": fen, "legal": legal}, 5)
 		}
+		// "… or reached by playing moves": play legal moves with MakeMove and compare the playable set
+		// of the position reached with the FIDE-legal moves of the rule-book successor (Rules.apply on
+		// the abstraction of the PREDECESSOR, so an error of MakeMove cannot hide in both sides)
+		lm := implutil.Legal(b)
+		var pick []move.Move
+		if src == "epdirected-pre" || len(lm) <= 4 {
+			pick = lm
+		} else {
+			for k := 0; k < 4; k++ {
+				pick = append(pick, lm[e.c.Rng.IntN(len(lm))])
+			}
+		}
+		var reqs []string
+		for _, m := range pick {
+			reqs = append(reqs, "specafter "+strconv.Itoa(int(m)))
+		}
+		after := e.m.Batch(reqs)
+		for k, m := range pick {
+			r := b.MakeMove(m)
+			got := implutil.MovesStr(implutil.Legal(b))
+			b.UndoMove(m, r)
+			e.r.Evaluations++
+			e.r.Count("reached-by-move", 1)
+			if got != after[k] {
+				e.r.Fail(common.Mismatch{Property: "C01", Kind: "failing-input", Ops: []string{"fen " + fen, "mk " + strconv.Itoa(int(m)), "legal"},
+					Impl: got, Spec: after[k], Note: "playable set of the position reached by MakeMove differs from the FIDE-legal moves of the rule-book successor"})
+			}
+		}
 	}
 }
 
@@ -373,6 +401,7 @@ func (e *env) run(prop, fen string, b *board.Board, ops []op) {
 		r    board.Reverse
 	}
 	var stack []saved
+	desync := false
 	path := []string{"fen " + fen}
 	for i, o := range ops {
 		path = append(path, o.req)
@@ -425,13 +454,11 @@ func (e *env) run(prop, fen string, b *board.Board, ops []op) {
 				}
 			}
 		}
-		if impl != ans[i] {
+		if !desync && impl != ans[i] {
 			e.r.Fail(common.Mismatch{Property: prop, Kind: "broken-correspondence", Ops: append([]string{}, path...), Impl: impl, Model: ans[i]})
-			// resynchronise is not possible: stop this sequence
-			for len(stack) > 0 {
-				stack = stack[:len(stack)-1]
-			}
-			return
+			// model and implementation cannot be resynchronised: keep executing the implementation so
+			// that its own property-level assertions (undo restores, hash == recomputation) still run
+			desync = true
 		}
 	}
 }
@@ -637,10 +664,69 @@ func (e *env) c09() {
 	for _, cl := range classes {
 		e.exhaustive(cl)
 	}
+	// (a') the directed king-net generator, property-level in Go on every sample; the samples that are
+	// in check or have at most three legal moves are kept for the three-way comparison in (b)
+	var kept []string
+	cand := e.c.Pick(400000, 20000000)
+	keepMax := e.c.Pick(6000, 300000)
+	for i := 0; i < cand; i++ {
+		p, ok := posgen.KingNet(e.c.Rng)
+		if !ok {
+			continue
+		}
+		fen := p.FEN()
+		b, err := board.FromFEN(fen)
+		if err != nil {
+			continue
+		}
+		// en-passant state must be engine-normalised: drop the target if no capture is legal
+		legalMoves := implutil.Legal(b)
+		if b.EnPassant != 0 {
+			epOK := false
+			for _, m := range legalMoves {
+				if m.To() == b.EnPassant && b.SquaresToPiece[m.From()] == Pawn {
+					epOK = true
+				}
+			}
+			if !epOK {
+				continue
+			}
+		}
+		legal := len(legalMoves)
+		e.r.Evaluations++
+		e.r.Count("kingnet", 1)
+		if b.InCheck(b.STM) {
+			e.r.Count("kingnet-in-check", 1)
+			if legal == 0 {
+				e.r.Count("kingnet-mate", 1)
+			}
+			if b.IsCheckmate() != (legal == 0) {
+				e.r.Fail(common.Mismatch{Property: "C09", Kind: "failing-input", Ops: []string{"fen " + fen, "state"},
+					Impl: fmt.Sprintf("IsCheckmate=%v legal=%d", b.IsCheckmate(), legal)})
+			}
+		} else {
+			if legal == 0 {
+				e.r.Count("kingnet-stalemate", 1)
+			}
+			if b.IsStalemate() != (legal == 0) {
+				e.r.Fail(common.Mismatch{Property: "C09", Kind: "failing-input", Ops: []string{"fen " + fen, "state"},
+					Impl: fmt.Sprintf("IsStalemate=%v legal=%d", b.IsStalemate(), legal)})
+			}
+		}
+		if (b.InCheck(b.STM) || legal <= 3) && len(kept) < keepMax {
+			kept = append(kept, fen)
+			e.r.Nontrivial(fen)
+		}
+	}
 	// (b) three-way on generated positions
-	n := e.c.Pick(2500, 150000)
+	n := e.c.Pick(2500, 150000) + len(kept)
 	for i := 0; i < n; i++ {
-		fen, src := e.s.Next()
+		var fen, src string
+		if i < len(kept) {
+			fen, src = kept[i], "kingnet-kept"
+		} else {
+			fen, src = e.s.Next()
+		}
 		b, valid, epn := e.load("C09", fen)
 		if b == nil || !valid || !epn {
 			continue
@@ -757,7 +843,7 @@ func (e *env) exhaustive(extra []int8) {
 // C10: repetition count along histories.
 
 func (e *env) c10() {
-	games := e.c.Pick(60, 6000)
+	games := e.c.Pick(150, 6000)
 	e.r.Rule = "game histories from valid starts (random play with a shuffling bias towards reversible moves, so positions recur, castling rights get lost and en-passant rights are transient), via MakeMove and via the UCI position command; after every ply Threefold() vs the Lean model vs the art. 9.2.2 count of the rule-book spec over the whole history (capped at 3); non-trivial = ply whose count is >= 2; distinct by (start FEN, move prefix)"
 	rng := e.c.Rng
 	for g := 0; g < games; g++ {
@@ -772,13 +858,31 @@ func (e *env) c10() {
 			}
 		}
 		n := 20 + rng.IntN(e.c.Pick(120, 400))
+		// mode 1: plain shuffling game (stops at a clock of 100 like a game under the 50-move rule)
+		// mode 2: long reversible shuffle that runs PAST a halfmove clock of 100 and past 128 plies
+		//         (the count does not depend on the clock; the int8 clock wraps meanwhile)
+		// mode 3: castling-rights shuffles: kings and rooks leave home and return, so rights are lost
+		//         while the placement recurs
+		mode := 1 + rng.IntN(3)
+		if mode == 2 {
+			n = 135 + rng.IntN(70)
+		}
+		if mode == 3 && b.Castles == 0 {
+			for try := 0; try < 50 && (b == nil || b.Castles == 0); try++ {
+				f := []string{"r3k2r/8/8/8/8/8/8/R3K2R w KQkq - 0 1", "r3k2r/pppppppp/8/8/8/8/PPPPPPPP/R3K2R b KQkq - 0 1",
+					"r3k2r/p6p/8/8/8/8/P6P/R3K2R w KQkq - 3 9", "rn2k2r/8/8/8/8/8/8/R3K1NR b KQkq - 0 1", "r3k3/8/8/8/8/8/8/4K2R w Kq - 0 1"}[rng.IntN(5)]
+				if nb, v, _ := e.load("C10", f); nb != nil && v {
+					b, fen = nb, f
+				}
+			}
+		}
 		var reqs []string
 		var impl []int
 		var ms []move.Move
 		var last [2]move.Move
 		for i := 0; i < n; i++ {
 			l := implutil.Legal(b)
-			if len(l) == 0 || b.FiftyCnt >= 100 {
+			if len(l) == 0 || (mode != 2 && b.FiftyCnt >= 100) {
 				break
 			}
 			// shuffling bias: prefer undoing one's previous move, then quiet non-pawn moves
@@ -786,7 +890,23 @@ func (e *env) c10() {
 			back := move.From(last[i%2].To()) | move.To(last[i%2].From())
 			pick := rng.IntN(10)
 			found := false
-			if pick < 5 && last[i%2] != 0 {
+			if mode == 2 {
+				pick = rng.IntN(8) // never a random (possibly irreversible) move unless forced
+			}
+			if mode == 3 && pick >= 5 {
+				// prefer king and rook moves of the side that still has rights
+				var kr []move.Move
+				for _, x := range l {
+					pc := b.SquaresToPiece[x.From()]
+					if (pc == King || pc == Rook) && b.SquaresToPiece[x.To()] == NoPiece && Abs(int(x.From())-int(x.To())) != 2 {
+						kr = append(kr, x)
+					}
+				}
+				if len(kr) > 0 {
+					m, found = kr[rng.IntN(len(kr))], true
+				}
+			}
+			if !found && pick < 5 && last[i%2] != 0 {
 				for _, x := range l {
 					if x == back && b.SquaresToPiece[x.To()] == NoPiece {
 						m, found = x, true
@@ -842,6 +962,10 @@ func (e *env) c10() {
 			e.r.Sample(map[string]any{"start": fen, "plies": len(ms), "counts": impl}, 2)
 		}
 		e.r.Count("plies", len(ms))
+		e.r.Count(fmt.Sprintf("mode%d-games", mode), 1)
+		if b.FiftyCnt < 0 || len(ms) > 128 {
+			e.r.Count("games-past-128-plies-or-clock-wrap", 1)
+		}
 	}
 }
 
@@ -864,6 +988,7 @@ func (e *env) c11() {
 	e.r.Rule = "(a) valid positions: FEN() -> FromFEN -> same snapshot, and the text round trip, also through `position fen … ` + `fen` in the UCI driver (incl. heavily promoted material); (b) a separate robustness stream of mutated FENs (truncation at every byte, dropped/duplicated fields, over-long ranks, digits 0/9, huge counters, non-ASCII, NUL) and random bytes: outcome class ok/err/panic and the resulting board vs the Lean parser model; non-trivial = distinct input string whose outcome is ok, or err reached after the placement field; distinct by input bytes"
 	// (a) round trips
 	n := e.c.Pick(1500, 100000)
+	var reusedRT board.Board
 	for i := 0; i < n; i++ {
 		fen, src := e.s.Next()
 		b, valid, _ := e.load("C11", fen)
@@ -880,6 +1005,15 @@ func (e *env) c11() {
 		}
 		if implutil.Dump(b2) != implutil.Dump(b) || b2.FEN() != text {
 			e.r.Fail(common.Mismatch{Property: "C11", Kind: "failing-input", Ops: []string{"fen " + fen, "fenout"}, Impl: implutil.Dump(b2), Spec: implutil.Dump(b), Note: "print/parse round trip changed the position"})
+		}
+		{
+			prev := implutil.Dump(&reusedRT)
+			full, nohash := implutil.Dump(b), ""
+			nohash = full[:strings.LastIndex(full, "[")]
+			if board.ParseFEN(&reusedRT, []byte(text)) != nil || !strings.HasPrefix(implutil.Dump(&reusedRT), nohash) {
+				e.r.Fail(common.Mismatch{Property: "C11", Kind: "failing-input", Ops: []string{"parse-into-reused-board-holding " + prev, "fen " + text},
+					Impl: implutil.Dump(&reusedRT), Spec: full, Note: "ParseFEN into a reused Board differs from a fresh parse"})
+			}
 		}
 		if m := e.m.Ask("fenout"); m != text {
 			e.r.Fail(common.Mismatch{Property: "C11", Kind: "broken-correspondence", Ops: []string{"fen " + fen, "fenout"}, Impl: text, Model: m})
@@ -959,6 +1093,10 @@ func (e *env) c11() {
 		}
 		inputs = append(inputs, base)
 	}
+	// one REUSED destination board for ParseFEN (the tuner's allocation-free path parses every
+	// training position into the same Board): the result must not depend on what was parsed before
+	var reused board.Board
+	stripHash := func(d string) string { return d[:strings.LastIndex(d, "[")] }
 	const batch = 2000
 	for off := 0; off < len(inputs); off += batch {
 		end := min(off+batch, len(inputs))
@@ -983,6 +1121,15 @@ func (e *env) c11() {
 			}
 			e.r.Count("robust:"+cls, 1)
 			ops := []string{"fenhex " + hex.EncodeToString(in)}
+			if cls == "ok" && strings.HasPrefix(impl, "ok ") {
+				prev := implutil.Dump(&reused)
+				if classify(func() error { return board.ParseFEN(&reused, in) }) != "ok" ||
+					stripHash(implutil.Dump(&reused)) != stripHash(impl[3:]) {
+					e.r.Fail(common.Mismatch{Property: "C11", Kind: "failing-input", Ops: append([]string{"parse-into-reused-board-holding " + prev}, ops...),
+						Impl: implutil.Dump(&reused), Spec: impl[3:], Note: fmt.Sprintf("ParseFEN into a reused Board differs from a fresh parse of %q", in)})
+				}
+				e.r.Count("reused-board-parses", 1)
+			}
 			if cls == "panic" {
 				e.r.Fail(common.Mismatch{Property: "C11", Kind: "failing-input", Ops: ops, Impl: "panic", Model: ans[k], Note: fmt.Sprintf("ParseFEN crashed on %q", in)})
 			} else if impl != ans[k] {
